@@ -9,7 +9,7 @@ wt=$(mktemp -d /tmp/hidseed-XXXXXX)
 out=$(mktemp -d /tmp/hidseed-out-XXXXXX)
 trap 'git -C /repo worktree remove --force "$wt" >/dev/null 2>&1; rm -rf "$wt" "$out"' EXIT
 git -C /repo worktree add --detach "$wt" HEAD >/dev/null 2>&1 || { echo "$name: cannot create worktree"; exit 3; }
-mkdir -p "$wt/SEEDED"; cp "$dir"/* "$wt/SEEDED/"; cp "$dir/demo.py" "$wt/SEEDED/${m}_demo.py"
+mkdir -p "$wt/SEEDED/tmp"; cp "$dir"/* "$wt/SEEDED/"; cp "$dir/demo.py" "$wt/SEEDED/${m}_demo.py"
 # prefer the demonstration under the name its author gave it (some locate their program file relative to that name)
 orig=$(cd "$dir" && ls m[0-9]_demo.py 2>/dev/null | head -1); [ -n "$orig" ] && m=${orig%_demo.py}
 d0=$(cd "$wt" && timeout 300 /venv/bin/python SEEDED/${m}_demo.py >/dev/null 2>&1; echo $?)
